@@ -37,6 +37,18 @@ def lemmas_axis(n, k):
                    doc='R^T R = I and det R = 1 for the coordinate-axis rotation matrix')
 
 
+def lemma_axis_add(n, k):
+    """A = R_k(ca, sa), B = R_k(cb, sb) entry-wise (hypotheses: the constructors' contracts), cab/sab by the addition formulas
+    (hypotheses: the trigonometric axioms)  ==>  A*B = R_k(cab, sab) entry-wise.  Matrix entries are lemma parameters, so the
+    theorem function needs no nonlinear reasoning of its own."""
+    A, B = SM.params('a', n), SM.params('b', n)
+    ca, sa, cb, sb, cab, sab = [var(v) for v in ('ca', 'sa', 'cb', 'sb', 'cab', 'sab')]
+    RA, RB, RS = rotcore.rot_axis_spec(n, k, ca, sa), rotcore.rot_axis_spec(n, k, cb, sb), rotcore.rot_axis_spec(n, k, cab, sab)
+    hy = A.eqs(RA) + B.eqs(RB) + [cab.eq(ca * cb - sa * sb), sab.eq(sa * cb + ca * sb)]
+    return L.Lemma('lemma_rot%d_%s_add' % (n, 'xyz'[k]), A.flat() + B.flat() + [ca, sa, cb, sb, cab, sab], hy, (A @ B).eqs(RS),
+                   doc='R_k(a) R_k(b) = R_k(a+b) for the coordinate-axis rotation (angle addition)')
+
+
 def lemmas_rodrigues(n):
     x, y, z, r, c, s = [var(v) for v in ('x', 'y', 'z', 'r', 'c', 's')]
     ax = SV([x / r, y / r, z / r])
@@ -89,8 +101,12 @@ def add_theorems_axis(u, ms, lemmas):
         body += ('    let m = %s::rotation_%s(a);\n    let mt = m.transposed();\n    let p = mt * m;\n    let d = m.determinant();\n'
                  '    proof { crate::%s(c, s); }\n' % (N, nm, lm.name))
         asserts = eq_all(ms, 'p', I) + ['d.v@ == 1real']
+        la = lemmas[('add', n, k)]
+        Mu, M2u = SM.of(ms, 'm'), SM.of(ms, 'm2')
         body2 = ('    let m = %s::rotation_%s(a);\n    let m2 = %s::rotation_%s(b);\n    let pr = m * m2;\n    let m3 = %s::rotation_%s(a + b);\n'
-                 '    proof { axiom_cos_add(a.v@, b.v@); axiom_sin_add(a.v@, b.v@); }\n' % (N, nm, N, nm, N, nm))
+                 '    proof { axiom_cos_add(a.v@, b.v@); axiom_sin_add(a.v@, b.v@);\n'
+                 '            crate::%s(%s, %s, cos_r(a.v@), sin_r(a.v@), cos_r(b.v@), sin_r(b.v@), cos_r(a.v@ + b.v@), sin_r(a.v@ + b.v@)); }\n'
+                 % (N, nm, N, nm, N, nm, la.name, lemma_args(Mu), lemma_args(M2u)))
         asserts2 = ['%s.v@ == %s.v@' % (ms.at('pr', i, j), ms.at('m3', i, j)) for i in range(n) for j in range(n)]
         u.add(ms.path, thm_fn('thm_rotation_%s_add_%s%d' % (nm, ms.layout, n), ['a: R', 'b: R'], [], body2, asserts2, 'C04'))
         # handedness: the next axis (cyclically) turns towards the one after it
@@ -193,6 +209,7 @@ def plan(exp, tier):
     for n in (2, 3, 4):
         for k in ((2,) if n == 2 else (0, 1, 2)):
             lem['axis'][(n, k)] = lemmas_axis(n, k)
+            lem['axis'][('add', n, k)] = lemma_axis_add(n, k)
         if n >= 3:
             lem['rod'][n] = lemmas_rodrigues(n)
             lem['add'][n] = lemma_rodrigues_add(n)
